@@ -360,8 +360,165 @@ fn defs_are_functions(p: &Prog) -> bool {
     }
 }
 
+// ------------------------------------------------------------------ nested index macros
+
+/// body of an index macro, in SOURCE order
+#[derive(Clone, Debug)]
+enum Mx {
+    Tok(String),
+    Ph(usize),
+    Call(usize, Vec<Vec<Mx>>), // call of an earlier macro with operands
+}
+
+struct Mac {
+    name: String,
+    body: Vec<Mx>,
+}
+
+fn mx_src(body: &[Mx], macs: &[Mac]) -> String {
+    body.iter()
+        .map(|m| match m {
+            Mx::Tok(t) => t.clone(),
+            Mx::Ph(i) => format!("^{i}"),
+            Mx::Call(k, ops) => format!("{}{}", macs[*k].name, ops.iter().map(|o| format!("({})", mx_src(o, macs))).collect::<String>()),
+        })
+        .collect::<Vec<_>>()
+        .join(" ")
+}
+
+/// the expansion written by hand: every placeholder replaced by the parenthesised operand text
+fn mx_expand(body: &[Mx], args: &[String], macs: &[Mac]) -> String {
+    body.iter()
+        .map(|m| match m {
+            Mx::Tok(t) => t.clone(),
+            Mx::Ph(i) => format!("({})", args.get(*i).cloned().unwrap_or_default()),
+            Mx::Call(k, ops) => {
+                let a: Vec<String> = ops.iter().map(|o| mx_expand(o, args, macs)).collect();
+                format!("({})", mx_expand(&macs[*k].body, &a, macs))
+            }
+        })
+        .collect::<Vec<_>>()
+        .join(" ")
+}
+
+/// index macros nested 2-3 deep whose bodies mention definition-site names, against the by-hand
+/// expansion placed in the DEFINING scope; used (a) in the defining scope, (b) through a module
+/// path from outside with a same-named outer binding, (c) after the mentioned names were rebound
+fn gen_nested_macro(r: &mut Rng) -> Option<(String, String, String, String)> {
+    let nh = 1 + r.below(2);
+    let helpers: Vec<(String, String)> = (0..nh)
+        .map(|i| {
+            let op = *r.pick(&["+", "×", "-"]);
+            (if i == 0 { "Hx".to_string() } else { "Hy".to_string() }, format!("{op}{}", r.range(2, 9) * if r.chance(1, 2) { 100 } else { 1 }))
+        })
+        .collect();
+    let two = r.chance(1, 3);
+    let k_body: Vec<Mx> = if two {
+        match r.below(3) {
+            0 => vec![Mx::Tok("⊃".into()), Mx::Ph(0), Mx::Ph(1)],
+            1 => vec![Mx::Ph(1), Mx::Ph(0)],
+            _ => vec![Mx::Tok("⊓".into()), Mx::Ph(0), Mx::Ph(1)],
+        }
+    } else {
+        match r.below(5) {
+            0 => vec![Mx::Ph(0), Mx::Ph(0)],
+            1 => vec![Mx::Tok("⊙".into()), Mx::Ph(0)],
+            2 => vec![Mx::Ph(0), Mx::Tok("⊙".into()), Mx::Ph(0)],
+            3 => vec![Mx::Tok("⊃".into()), Mx::Ph(0), Mx::Ph(0)],
+            _ => vec![Mx::Tok("⊸".into()), Mx::Ph(0)],
+        }
+    };
+    let mut macs = vec![Mac { name: if two { "Kq‼".into() } else { "Kq!".into() }, body: k_body }];
+    let depth = 2 + r.below(2);
+    for d in 1..depth {
+        let name = if d == 1 { "Jq!" } else { "Lq!" };
+        // an operand that mentions a definition-site name
+        let operand = |r: &mut Rng, with_ph: bool| -> Vec<Mx> {
+            let h = Mx::Tok(helpers[r.below(helpers.len())].0.clone());
+            let mut v = vec![h];
+            if with_ph {
+                let pos = r.below(2);
+                v.insert(pos, Mx::Ph(0));
+            }
+            if r.chance(1, 4) {
+                v.push(Mx::Tok((*r.pick(&["¯", "+1", "⌵"])).to_string()));
+            }
+            v
+        };
+        let callee = r.below(macs.len());
+        let nargs = if macs[callee].name.ends_with('‼') { 2 } else { 1 };
+        let mut ops = Vec::new();
+        for i in 0..nargs {
+            let w = i == 0 || r.chance(1, 2);
+            ops.push(operand(r, w));
+        }
+        let mut body = vec![Mx::Call(callee, ops)];
+        if r.chance(1, 3) {
+            // a second nested call or a bare helper next to it
+            if r.chance(1, 2) {
+                body.push(Mx::Tok(helpers[r.below(helpers.len())].0.clone()));
+            } else {
+                let c2 = r.below(macs.len());
+                let n2 = if macs[c2].name.ends_with('‼') { 2 } else { 1 };
+                let ops2 = (0..n2).map(|_| { let w = r.chance(1, 2); operand(r, w) }).collect();
+                body.insert(0, Mx::Call(c2, ops2));
+            }
+        }
+        macs.push(Mac { name: name.to_string(), body });
+    }
+    let top = macs.len() - 1;
+    let f = (*r.pick(&["×2", "+1", "¯", "-3", "×3 +1"])).to_string();
+    let call = format!("{}({f})", macs[top].name);
+    let exp = format!("({})", mx_expand(&macs[top].body, &[f.clone()], &macs));
+    let lits: Vec<String> = (0..4).map(|_| format!("{}", r.range(1, 9))).collect();
+    let lits = lits.join(" ");
+    let scenario = r.below(4);
+    let in_module = scenario != 2;
+    let ind = if in_module { "  " } else { "" };
+    let mut defs = String::new();
+    for (n, b) in &helpers {
+        let arrow = if in_module && r.chance(1, 2) { "↚" } else { "←" };
+        defs.push_str(&format!("{ind}{n} {arrow} {b}\n"));
+    }
+    for m in &macs {
+        defs.push_str(&format!("{ind}{} ← {}\n", m.name, mx_src(&m.body, &macs)));
+    }
+    let outer: String = helpers.iter().map(|(n, _)| format!("{n} ← +7\n")).collect();
+    let hdr = "# Experimental!\n";
+    let (s1, s2, what) = match scenario {
+        0 => (
+            // (a) used in the defining scope (a module)
+            format!("{hdr}┌─╴Mod\n{defs}  Ra ← {call}\n└─╴\nMod~Ra {lits}\n"),
+            format!("{hdr}┌─╴Mod\n{defs}  Ra ← {exp}\n└─╴\nMod~Ra {lits}\n"),
+            "in the defining module",
+        ),
+        1 => (
+            // (b) through a module path from outside, with same-named outer bindings
+            format!("{hdr}┌─╴Mod\n{defs}└─╴\n{outer}Mod~{call} {lits}\n"),
+            format!("{hdr}┌─╴Mod\n{defs}  Ra ← {exp}\n└─╴\n{outer}Mod~Ra {lits}\n"),
+            "through a module path, outer bindings of the same names",
+        ),
+        2 => (
+            // (c) after the mentioned names were rebound
+            format!("{hdr}{defs}{outer}{call} {lits}\n"),
+            format!("{hdr}{defs}Ra ← {exp}\n{outer}Ra {lits}\n"),
+            "after the mentioned names were rebound",
+        ),
+        _ => (
+            // (b)+(c): outer bindings exist BEFORE the module as well as after
+            format!("{hdr}{outer}┌─╴Mod\n{defs}└─╴\n{outer}Mod~{call} {lits}\n"),
+            format!("{hdr}{outer}┌─╴Mod\n{defs}  Ra ← {exp}\n└─╴\n{outer}Mod~Ra {lits}\n"),
+            "through a module path, same names bound before and after the module",
+        ),
+    };
+    Some(("nestedmacro".to_string(), s1, s2, format!("{call} nested {depth} deep, {what}; by hand: {exp}")))
+}
+
 /// one (P, P') pair of a family; None when the transformation does not apply
 fn gen_pair(r: &mut Rng, fam: usize, arr: bool) -> Option<(String, String, String, String)> {
+    if fam == 5 {
+        return gen_nested_macro(r);
+    }
     let p = gen_prog(r, arr);
     if fam != 4 && !defs_are_functions(&p) {
         return None;
@@ -510,7 +667,7 @@ fn main() {
             let mut opt_total = 0;
             while emitted < n && tries < n * 30 {
                 tries += 1;
-                let fam = if r.chance(1, 25) { 4 } else { r.below(4) };
+                let fam = if r.chance(1, 25) { 4 } else if r.chance(1, 7) { 5 } else { r.below(4) };
                 let arr = r.chance(1, 4);
                 let Some((fname, s1, s2, what)) = gen_pair(&mut r, fam, arr) else { continue };
                 let (Ok(a1), Ok(a2)) = (compile_quiet(&s1), compile_quiet(&s2)) else { continue };
@@ -551,7 +708,7 @@ fn main() {
             let mut samples = 0;
             while done < n && tries < n * 30 {
                 tries += 1;
-                let fam = if r.chance(1, 25) { 4 } else { r.below(4) };
+                let fam = if r.chance(1, 25) { 4 } else if r.chance(1, 7) { 5 } else { r.below(4) };
                 let arr = r.chance(1, 3);
                 let Some((fname, s1, s2, what)) = gen_pair(&mut r, fam, arr) else { continue };
                 let a = run_msg(&s1);
@@ -677,7 +834,7 @@ fn main() {
                         None => show_res(&res),
                     },
                     Err((ph, m)) => {
-                        if ph == "compile" && m.contains("is private") { "private".to_string() } else { format!("{ph} error: {m}") }
+                        if ph == "compile" && m.contains("private") { "private".to_string() } else { format!("{ph} error: {m}") }
                     }
                 };
                 *kinds.entry(kind).or_default() += 1;
@@ -690,6 +847,10 @@ fn main() {
                 }
             };
             emit("rebind", "F ← +1\nG ← F\nF ← ×2\nG 5\n".into(), "ok [6]".into(), &mut kinds, &mut cases, &mut bad);
+            // a module's header import line must not make a private name reachable outside the module
+            emit("private-header-import", "┌─╴M ~ F\n  F ↚ +1\n└─╴\nF 5\n".into(), "private".into(), &mut kinds, &mut cases, &mut bad);
+            emit("private-header-import", "┌─╴M ~ P\n  P ↚ 5\n└─╴\nP\n".into(), "private".into(), &mut kinds, &mut cases, &mut bad);
+            emit("public-header-import", "┌─╴M ~ F\n  F ← +1\n└─╴\nF 5\n".into(), "ok [6]".into(), &mut kinds, &mut cases, &mut bad);
             for _ in 0..n {
                 let (a, b, x) = (r.range(1, 9), r.range(2, 9), r.range(0, 9));
                 match r.below(9) {
